@@ -251,7 +251,7 @@ func Build(seed uint64, big bool) *Scenario {
 	// ---- projects
 	var projects []projInfo
 	mkProject := func(ci int) {
-		admin := r.Intn(activeUsers)
+		admin := pick(r, classes[ci].issuers) // only an issuer of the class may create a project in it
 		res := do(a.MsgCreateProject(admin, classes[ci].id, fmt.Sprintf("regen:project-%d", len(projects)), pick(r, jurPool), pick(r, refPool), nil))
 		if id := respField(res, "project_id"); id != "" {
 			projects = append(projects, projInfo{id: id, class: ci, admin: admin})
@@ -273,9 +273,13 @@ func Build(seed uint64, big bool) *Scenario {
 				mkProject(ci)
 			}
 		}
-		for len(projects) < 3 {
+		for tries := 0; len(projects) < 3 && tries < 20; tries++ {
 			mkProject(r.Intn(len(classes)))
 		}
+	}
+
+	if len(projects) == 0 {
+		panic("queries: no project could be created: " + fmt.Sprint(sc.FailLog))
 	}
 
 	// ---- batches
@@ -373,9 +377,24 @@ func Build(seed uint64, big bool) *Scenario {
 			ct = "BIO"
 		}
 		var allowed []string
-		for _, c := range classes {
-			if c.ct == ct && (len(allowed) == 0 || r.Chance(1, 2)) && len(allowed) < 6 {
+		hasBatch := map[int]bool{}
+		for _, b := range batches {
+			hasBatch[projects[b.proj].class] = true
+		}
+		for ci, c := range classes { // classes that own batches first, so that puts can succeed
+			if c.ct == ct && hasBatch[ci] && len(allowed) < 5 && r.Chance(3, 4) {
 				allowed = append(allowed, c.id)
+			}
+		}
+		for _, c := range classes {
+			if c.ct == ct && (len(allowed) == 0 || r.Chance(1, 3)) && len(allowed) < 7 {
+				dup := false
+				for _, x := range allowed {
+					dup = dup || x == c.id
+				}
+				if !dup {
+					allowed = append(allowed, c.id)
+				}
 			}
 		}
 		if len(allowed) == 0 {
